@@ -23,7 +23,7 @@ type wEdges struct {
 	Spell string `json:"spell,omitempty"`
 }
 
-var wSpells = []string{"bare", "dot0", "tab", "2sp", "edge"}
+var wSpells = []string{"bare", "dot0", "tab", "2sp", "edge", "zero"}
 
 func (e wEdges) px(v int) string {
 	switch e.Spell {
@@ -31,6 +31,8 @@ func (e wEdges) px(v int) string {
 		return fmt.Sprint(v)
 	case "dot0":
 		return fmt.Sprintf("%d.0px", v)
+	case "zero": // zero-padded: still the decimal number
+		return fmt.Sprintf("0%dpx", v)
 	}
 	return fmt.Sprintf("%dpx", v)
 }
